@@ -93,6 +93,24 @@ def find_validators(facts):
         for role, pat in sigs:
             fns = [n for n, b in bodies.items() if b['kind'] == 'Fn' and b['parent'] == mod and b['sig']
                    and b['sig']['inputs'] == ['&[u8]'] and re.match(pat, b['sig']['output'])]
+            if not fns:
+                # the helper may live in another module (shared between the -u- and -t- lists): free functions of that signature that the
+                # functions of this module call
+                called = set()
+                for n, b in bodies.items():
+                    if n.startswith(mod + '::') and b.get('mir'):
+                        for blk in b['mir']['blocks']:
+                            t = blk['term']
+                            if t['k'] == 'call':
+                                called.add(t['r'] or t['f'])
+                            for st_ in blk['stmts']:
+                                # fn items passed as callbacks (`.map(parse_value)`)
+                                for m in re.finditer(r"'fn': '([^']+)'", str(st_)) if st_['k'] == 'assign' else ():
+                                    called.add(m.group(1))
+                            for m in re.finditer(r"'fn': '([^']+)'", str(t.get('args', ''))) if t['k'] == 'call' else ():
+                                called.add(m.group(1))
+                fns = [n for n in called if n in bodies and bodies[n]['kind'] == 'Fn' and bodies[n]['sig'] and bodies[n]['sig']['inputs'] == ['&[u8]']
+                       and re.match(pat, bodies[n]['sig']['output']) and n.split('::')[0] == mod.split('::')[0]]
             if fns:
                 out[role] = sorted(fns)
             else:
@@ -317,5 +335,6 @@ def run_all(program, rep, roles_wanted=None):
             rr = role
             if role == 'is_utype':
                 rr = 'is_utype'
-            results[fn] = analyse(program, fn, roles[rr], rep)
+            # one function may serve several roles (a value validator shared by the -u- and -t- lists): it is analysed once per role
+            results[fn if fn not in results else '%s#%s' % (fn, role)] = analyse(program, fn, roles[rr], rep)
     return results, found
